@@ -40,6 +40,64 @@ func (w *World) classifyWrite(in ssa.Instruction) *keyWrite {
 	if !ok {
 		return nil
 	}
+	// the key assembled in a byte slice: append(key, 'c'), append(key, s...),
+	// strconv.AppendInt(key, n, 10)
+	if b, isB := c.Call.Value.(*ssa.Builtin); isB && b.Name() == "append" && len(c.Call.Args) == 2 {
+		if sl, ok := c.Call.Args[0].Type().Underlying().(*types.Slice); !ok || !isByteType(sl.Elem()) {
+			return nil
+		}
+		kw := &keyWrite{in: in}
+		arg := strip(c.Call.Args[1])
+		if bt, ok := arg.Type().Underlying().(*types.Basic); ok && bt.Info()&types.IsString != 0 {
+			return w.classifyStr(kw, arg)
+		}
+		// a literal element list: new [n]byte, stores, slice
+		if slc, ok := arg.(*ssa.Slice); ok {
+			if a, ok := slc.X.(*ssa.Alloc); ok {
+				var bytes []int64
+				constOnly := true
+				for _, u := range uses(a) {
+					if ia, ok := u.(*ssa.IndexAddr); ok {
+						for _, uu := range uses(ia) {
+							if st, ok := uu.(*ssa.Store); ok {
+								if k, ok := constInt(st.Val); ok {
+									bytes = append(bytes, k)
+								} else {
+									constOnly = false
+								}
+							}
+						}
+					}
+				}
+				if constOnly && len(bytes) == 1 {
+					kw.kind, kw.b = "byte", byte(bytes[0])
+					return kw
+				}
+				if constOnly {
+					kw.kind = "conststr"
+					return kw
+				}
+				kw.kind = "varbyte"
+				return kw
+			}
+		}
+		return nil
+	}
+	if f := c.Call.StaticCallee(); f != nil && f.Pkg != nil && f.Pkg.Pkg.Path() == "strconv" && strings.HasPrefix(f.Name(), "Append") && len(c.Call.Args) >= 2 {
+		kw := &keyWrite{in: in, kind: "int"}
+		if l := lenOperand(stripConv(c.Call.Args[1])); l != nil {
+			if c2, ok := strip(l).(*ssa.Call); ok && c2.Call.IsInvoke() {
+				kw.kind, kw.src = "len", c2.Call.Method.Name()
+			} else if a, ok := l.(*ssa.Alloc); ok {
+				kw.kind, kw.src = "len", w.navSourceOfCell(a)
+			} else if ld, ok := strip(l).(*ssa.UnOp); ok {
+				if a := cellOf(ld.X); a != nil {
+					kw.kind, kw.src = "len", w.navSourceOfCell(a)
+				}
+			}
+		}
+		return kw
+	}
 	f := c.Call.StaticCallee()
 	if f == nil || f.Signature.Recv() == nil || len(c.Call.Args) != 2 {
 		return nil
@@ -489,3 +547,8 @@ func (w *World) checkUnionLoop(r *Report, hash *ssa.Function) {
 }
 
 var _ = strings.Join
+
+func isByteType(t types.Type) bool {
+	b, ok := t.Underlying().(*types.Basic)
+	return ok && (b.Kind() == types.Uint8 || b.Kind() == types.Byte)
+}
